@@ -530,6 +530,7 @@ Record obs := {
   o_aux : option bytes;      (* raw_auxiliary_data *)
   o_wits : bytes;            (* raw_witness_set *)
   o_tx : bytes;              (* to_bytes *)
+  o_valid : bool;            (* is_valid() *)
   o_hash_pre : option bytes  (* bytes whose Blake2b-256 (computed outside the library) is transaction_hash,
                                 searched among the current raw_body and the body slices seen so far *)
 }.
@@ -561,6 +562,7 @@ Definition judge (input : bytes) (ops : list (op * bool)) (o : obs) : verdict :=
            && bytes_eqb (o_tx o)
                 ([132] ++ sp_body st ++ o_wits o ++ enc_valid (sp_valid st) ++ enc_aux (sp_aux st))
            && match o_hash_pre o with Some p => bytes_eqb p (sp_body st) | None => false end
+           && Bool.eqb (o_valid o) (sp_valid st)
         then VHolds else VFails
       | _ => VFails
       end
@@ -588,7 +590,7 @@ Definition same_reading (input : bytes) : bool :=
    and the operations paired with their success in the model *)
 Definition model_obs (tx : fixed_tx) : obs :=
   {| o_body := ft_body tx; o_aux := ft_aux tx; o_wits := encode_wits (ft_wits tx);
-     o_tx := encode_fixed tx; o_hash_pre := Some (ft_hash tx) |}.
+     o_tx := encode_fixed tx; o_valid := ft_valid tx; o_hash_pre := Some (ft_hash tx) |}.
 Fixpoint op_flags (sv : bytes -> bytes -> vkw) (sb : bool -> bytes -> bytes -> bw) (ops : list op) (tx : fixed_tx)
   : list (op * bool) :=
   match ops with
